@@ -217,7 +217,7 @@ theorem C03_table_surface :
     (Gen.readers.map (·.1)).Nodup ∧
     Gen.properties = ["ids", "parameters", "variables", "derived", "reactions"] ∧
     Gen.privates = ["_create_cache", "_insert_id", "_check_new_ids", "_check_known_names", "_remove_id",
-      "_scaled_value", "_get_args", "_get_args_time_course", "_get_right_hand_side"] ∧
+      "_scaled_value", "_sorted_readouts", "_get_args", "_get_args_time_course", "_get_right_hand_side"] ∧
     -- the only places where one of the model's own dictionaries leaves a non-mutator uncopied: the
     -- `as_copy=False` escape of `get_raw_*` and a local alias that is only read
     Gen.liveRefs = [("get_raw_parameters", "_parameters"), ("get_raw_variables", "_variables"),
